@@ -106,13 +106,16 @@ HoldsThrough(lv, sv, ll, ag, j) ==
 
 \* omniscient commit definition on a global state (o, dl, ds): entries of leader ld that are on a
 \* strict majority of the VOTERS of its latest configuration, through an entry of its own term
+\* (what a store still holds at or below its owner's snapshot index is superseded by the snapshot and is not part of
+\* the leader's log: a prefix left behind by InstallSnapshot may never have been checked against any leader)
 CommittedBy(o, dl, ds, ag, ld) ==
   LET T  == o[ld].term
       vs == Voters(tab, o[ld].cl)
-      J  == {j \in DOMAIN dl[ld] : dl[ld][j][1] = T
-               /\ 2 * Cardinality({v \in vs : v \in servers /\ HoldsThrough(dl[v], ds[v], dl[ld], ag, j)}) > Cardinality(vs)}
+      LL == [i \in {k \in DOMAIN dl[ld] : k > SnapIdxOf(ds[ld])} |-> dl[ld][i]]
+      J  == {j \in DOMAIN LL : LL[j][1] = T
+               /\ 2 * Cardinality({v \in vs : v \in servers /\ HoldsThrough(dl[v], ds[v], LL, ag, j)}) > Cardinality(vs)}
       jm == MaxSet(J)
-  IN IF J = {} THEN EmptyFn ELSE [i \in {k \in DOMAIN dl[ld] : k <= jm} |-> dl[ld][i]]
+  IN IF J = {} THEN EmptyFn ELSE [i \in {k \in DOMAIN LL : k <= jm} |-> LL[i]]
 
 RECURSIVE FoldCommitted(_, _, _, _, _)
 FoldCommitted(o, dl, ds, ag, S) ==
@@ -255,13 +258,18 @@ RestartPreds(n, pre, post, lg, sn) ==
      \cup (IF post.llog = expLL THEN {} ELSE {<<"C10", "RestartLastLog", <<n, post.llog, expLL>>>>})
      \cup (IF post.lsnap = <<si, SnapTermOf(sn)>> THEN {} ELSE {<<"C10", "RestartLastSnapshot", <<n, post.lsnap, si>>>>})
      \cup (IF <<post.cli, post.cl>> = expCl THEN {} ELSE {<<"C10", "RestartConfiguration", <<n, <<post.cli, post.cl>>, expCl>>>>})
-     \* the configuration it used before going down is still covered by its durable state (entry in the log, or at / below
-     \* the snapshot): it must not come back with an older one
+     \* the committed configuration it used before going down is still covered by its durable state (entry in the log, or
+     \* at / below the snapshot): it must not come back with an older one
      \cup (IF again /\ post.cli < pre.cli /\ (pre.cli <= si \/ (pre.cli \in DOMAIN lg /\ lg[pre.cli][2] = "cfg"))
+              /\ pre.cli \in DOMAIN g.agreed /\ g.agreed[pre.cli][2] = "cfg" /\ g.agreed[pre.cli][3] = pre.cl
            THEN {<<"C10", "RestartConfigurationRegressed", <<n, <<pre.cli, pre.cl>>, <<post.cli, post.cl>>, si>>>>} ELSE {})
      \cup (LET E == IF params.ct THEN Max(si, Min(post.dcommit, ll)) ELSE si     \* how far the FSM must have been fed
            IN IF params.norestore \/ (g.fsmLast[n] <= E /\ \A k \in DOMAIN lg : (k > si /\ k <= E /\ lg[k][2] = "cmd") => k <= g.fsmLast[n])
               THEN {} ELSE {<<"C10", "RestartFSMPosition", <<n, g.fsmLast[n], si, E>>>>})
+
+\* n's entry at index i is what its leader p holds at or below p's own snapshot index (see DoFsm)
+FromLeaderPrefix(n, p, i, lg) ==
+  p \in servers /\ p # n /\ i \in DOMAIN lg /\ i \in DOMAIN dlog[p] /\ dlog[p][i] = lg[i] /\ i <= SnapIdxOf(dsnaps[p])
 
 DoState(ln) ==
   LET n      == ln.n
@@ -297,7 +305,7 @@ DoState(ln) ==
       vCommit == (IF post.up /\ post.commit > post.last THEN {<<"C05", "CommitBeyondLast", <<n, post.commit, post.last>>>>} ELSE {})
                  \cup (IF sameInc /\ post.commit < pre.commit THEN {<<"C05", "CommitDecreased", <<n, pre.commit, post.commit>>>>} ELSE {})
                  \cup (IF post.up
-                       THEN {<<"C05", "CommitNotAgreed", <<n, i>>>> :
+                       THEN {<<"C05", (IF FromLeaderPrefix(n, post.leader, i, postLog) THEN "CommitOverLeaderPrefixBelowSnapshot" ELSE "CommitNotAgreed"), <<n, i>>>> :
                                i \in {k \in ((IF sameInc THEN pre.commit ELSE 0) + 1)..post.commit :
                                         k > MaxSet(g.burned) /\ (k \notin DOMAIN ag2 \/
                                            (k > SnapIdxOf(postSn) /\ k \in DOMAIN postLog /\ postLog[k] # ag2[k]))}}
@@ -446,7 +454,12 @@ DoFsm(ln) ==
   IF ln.op = "apply" THEN
     LET i == ln.idx
         e == <<ln.term, ln.ty, ln.id>>
-        V == (IF i \in DOMAIN g.agreed /\ g.agreed[i] = e THEN {} ELSE {<<"C02", "AppliedNotAgreed", <<n, i, e>>>>})
+        \* finding "unverified prefix": the entry is what n's leader holds at or below its own snapshot index (a
+        \* prefix kept through InstallSnapshot, never checked against any leader) and served from there
+        fromPrefix == \E p \in servers \ {n} : obs[n].leader = p /\ i \in DOMAIN dlog[p] /\ dlog[p][i] = e /\ i <= SnapIdxOf(dsnaps[p])
+        V == (IF i \in DOMAIN g.agreed /\ g.agreed[i] = e THEN {}
+              ELSE IF fromPrefix THEN {<<"C02", "AppliedLeaderPrefixBelowSnapshot", <<n, i, e, obs[n].leader>>>>}
+              ELSE {<<"C02", "AppliedNotAgreed", <<n, i, e>>>>})
              \cup (IF i > g.fsmLast[n] THEN {} ELSE {<<"C02", "ApplyOutOfOrder", <<n, i, g.fsmLast[n]>>>>})
              \cup {<<"C02", "SkippedCommand", <<n, k>>>> :
                      k \in {j \in (g.fsmLast[n] + 1)..(i - 1) : j > MaxSet(g.burned) /\ (j \notin DOMAIN g.agreed \/ g.agreed[j][2] = "cmd")}}
